@@ -41,7 +41,7 @@ ASSUMPTIONS = [
     "numpy astype/tobytes/frombuffer/reshape and msgpack round-trip values of the encoded types",
     "attrs strips the leading underscore of private fields for the init keyword",
 ]
-FLOORS = {"C01.R9": 3, "C01.R1": 40, "C01.R2": 16, "C01.R3": 30, "C01.R4": 9, "C01.R5": 8, "C01.R6": 4, "C01.R7": 2}
+FLOORS = {"C01.R9": 1, "C01.R1": 40, "C01.R2": 16, "C01.R3": 30, "C01.R4": 9, "C01.R5": 8, "C01.R6": 4, "C01.R7": 2}
 
 PAIRS = [
     ("mol", 1, "_serialize_mol_v1", "_deserialize_mol_v1"),
@@ -866,17 +866,20 @@ def r9_reader_sinks(chk):
     has_kwds = a.kwarg is not None
     # the top-level test that separates "list of structures" from everything else
     tops = [t for t in init.node.body if isinstance(t, ast.If) and "Structure" in norm(t.test) and "list" in norm(t.test)]
-    chk.require(len(tops) == 1 and tops[0].orelse, "ConformerEnsemble.__init__: the list-of-structures test with an else arm was not found")
-    top = tops[0]
-    after = init.node.body[init.node.body.index(top) + 1:]
-    taken = list(top.orelse) + after
+    if not (len(tops) == 1 and tops[0].orelse):
+        # an additional clause must not take away a verdict the check gave before: a constructor in another shape is noted, part (b) still decides
+        chk.note("C01.R9: ConformerEnsemble.__init__ does not separate the list-of-structures case by one top-level if / else; which branch the reader's call takes is not classified - no verdict on the reader's keywords")
+        tops = None
+    top = tops[0] if tops else None
+    after = init.node.body[init.node.body.index(top) + 1:] if top is not None else []
+    taken = (list(top.orelse) + after) if top is not None else []
 
     def reads(stmts, name):
         return any(isinstance(x, ast.Name) and x.id == name and isinstance(x.ctx, ast.Load) for s_ in stmts for x in ast.walk(s_))
 
-    sup = [c for s_ in top.orelse for c in ast.walk(s_) if isinstance(c, ast.Call) and norm(c.func) == "super().__init__"]
+    sup = [c for s_ in (top.orelse if top is not None else []) for c in ast.walk(s_) if isinstance(c, ast.Call) and norm(c.func) == "super().__init__"]
     fwd = bool(sup) and has_kwds and any(k.arg is None and norm(k.value) == a.kwarg.arg for k in sup[0].keywords)
-    for k in kws:
+    for k in (kws if top is not None else []):
         key = f"{init.key}:consumes-reader-keyword:{k}"
         if k in named:
             chk.decide(reads(taken, k), "C01.R9", key, init.where(top), f"`{k}` is read on the branch a list of atoms takes",
